@@ -631,7 +631,13 @@ fn apply<T: MomT>(w: &mut World<T>, op: &Op, e: &Embedding, roundtrip: bool) {
             w.addonly[d] = false;
         }
         Op::Clone(d, s) => {
-            w.slots[d] = w.slots[s].clone();
+            // Clone::clone / Clone::clone_from alternately: the same step of the specification
+            let src = w.slots[s].clone();
+            if (w.ghost[d].len() + w.ghost[s].len()) % 2 == 1 {
+                w.slots[d].clone_from(&src);
+            } else {
+                w.slots[d] = src;
+            }
             w.ghost[d] = w.ghost[s].clone();
             w.addonly[d] = w.addonly[s];
         }
@@ -775,6 +781,21 @@ fn replay_one<T: MomT>(h: &Value, ops: &[Op], specs: &[SlotSpec], cxs: &[Ctx], e
                 }
                 if T::from_json(&j).to_json() != j {
                     viol::<T>(rep, "C18", e, h, *s, "roundtrip", "re-serialising the restored estimator gives different text".into(), json!({"step": step + 1, "json": j}));
+                }
+                // the same through a positional (not self-describing) lossless format; the stream
+                // continues on the JSON copy at even steps and on the positional copy at odd ones
+                let mut restored = restored;
+                match w1.slots[*s].roundtrip_pos() {
+                    Ok(rp) => {
+                        rep.evaluations += 1;
+                        if let Some(df) = first_diff(&before, &obs_bits(&rp)) {
+                            viol::<T>(rep, "C18", e, h, *s, "roundtrip (positional format)", format!("restored estimator differs: {df}"), json!({"step": step + 1, "json": j}));
+                        }
+                        if step % 2 == 1 {
+                            restored = rp;
+                        }
+                    }
+                    Err(_) => rep.bump("positional_format_not_supported", 1),
                 }
                 w1.slots[*s] = restored;
             } else {
